@@ -1319,17 +1319,27 @@ enum cc_stat cc_list_filter(CC_List *list, bool (*pred) (const void*), CC_List *
     if (cc_list_size(list) == 0)
         return CC_ERR_OUT_OF_RANGE;
 
-    CC_List *filtered = NULL;
-    cc_list_new(&filtered);
+    CC_ListConf conf;
 
-    if (!filtered)
-        return CC_ERR_ALLOC;
+    conf.mem_alloc  = list->mem_alloc;
+    conf.mem_calloc = list->mem_calloc;
+    conf.mem_free   = list->mem_free;
+
+    CC_List *filtered = NULL;
+    enum cc_stat status = cc_list_new_conf(&conf, &filtered);
+
+    if (status != CC_OK)
+        return status;
 
     Node *curr = list->head;
 
     while (curr) {
         if (pred(curr->data)) {
-            cc_list_add(filtered, curr->data);
+            status = cc_list_add(filtered, curr->data);
+            if (status != CC_OK) {
+                cc_list_destroy(filtered);
+                return status;
+            }
         }
         curr = curr->next;
     }
